@@ -71,6 +71,8 @@ def cfg_cpp(s):
 
 
 def cfg_category(s):
+    if ";" in s:
+        return "many"
     c = parse_cfg(s)
     nf = sum(1 for k, _, _ in c if k == "F")
     nv = sum(1 for k, _, _ in c if k == "V")
@@ -166,7 +168,11 @@ def build(engine, cfg, kind, flavour, std="c++17", extra_defs=()):
     src = os.path.join(ROOT, "harness", "engines", engine + ".cpp")
     cxx, flags = FLAVOURS[flavour]
     header = "#include \"vf/config.hpp\"\n"
-    if cfg:
+    if cfg and ";" in cfg:
+        # several parameter lists in one binary (layout engine)
+        lst = cfg.split(";")
+        header += "#include <tuple>\nusing VF_CFGS = std::tuple<%s>;\nstatic const char* const VF_CFG_STRS[] = {%s};\n" % (", ".join(cfg_cpp(c) for c in lst), ", ".join('"%s"' % c for c in lst))
+    elif cfg:
         header += "using VF_CFG = %s;\n#define VF_CFG_STR \"%s\"\n" % (cfg_cpp(cfg), cfg)
         if cfg_never_allocates(cfg):
             header += "#define VF_ARM_NEW 1\n"
